@@ -12,12 +12,56 @@
 //! plan.aux = [op, sel_a, sel_b, k] * steps.
 
 use crate::ctx::{guard, Ctx, Guarded};
-use crate::num;
+use crate::num::{self, Num};
 use crate::plan::Plan;
 use ruint::Uint;
 use std::str::FromStr;
 
-pub const NOPS: u64 = 99;
+pub const NOPS: u64 = 115;
+/// Operation kinds excluded from generated histories (`--skip-ops`): set by the supervisor after an
+/// operation took the whole process down (abort / hang), which is outside C04's statement; the other
+/// kinds are still judged. Applied when the plan is GENERATED, so every replay file stays exact.
+static SKIP_OPS: [std::sync::atomic::AtomicU64; 2] = [std::sync::atomic::AtomicU64::new(0), std::sync::atomic::AtomicU64::new(0)];
+
+pub fn set_skip_ops(ops: &[u64]) {
+    let mut m = [0u64; 2];
+    for &o in ops {
+        if o < 128 {
+            m[(o / 64) as usize] |= 1 << (o % 64);
+        }
+    }
+    SKIP_OPS[0].store(m[0], std::sync::atomic::Ordering::Relaxed);
+    SKIP_OPS[1].store(m[1], std::sync::atomic::Ordering::Relaxed);
+}
+
+pub fn op_skipped(op: u64) -> bool {
+    let op = op % NOPS;
+    op < 128 && SKIP_OPS[(op / 64) as usize].load(std::sync::atomic::Ordering::Relaxed) >> (op % 64) & 1 == 1
+}
+
+/// Remove the excluded operation kinds from a generated plan.
+pub fn filter_plan(plan: &mut Plan) {
+    if SKIP_OPS[0].load(std::sync::atomic::Ordering::Relaxed) | SKIP_OPS[1].load(std::sync::atomic::Ordering::Relaxed) == 0 {
+        return;
+    }
+    let mut aux = Vec::with_capacity(plan.aux.len());
+    for step in plan.aux.chunks(4) {
+        if step.len() == 4 && !op_skipped(step[0]) {
+            aux.extend_from_slice(step);
+        }
+    }
+    plan.aux = aux;
+}
+
+/// Label of an operation kind (for notes and evidence).
+pub fn op_name(op: u64) -> &'static str {
+    let z = Uint::<64, 1>::ZERO;
+    match guard(|| apply_all::<64, 1>(op % NOPS, z, z, 1).0) {
+        Guarded::Ok(n) => n,
+        _ => "?",
+    }
+}
+
 /// operations that are expensive on very wide types (skipped above 1024 bits)
 fn heavy(op: u64) -> bool {
     matches!(op, 40..=52)
@@ -323,6 +367,420 @@ fn apply<const B: usize, const L: usize>(op: u64, a: Uint<B, L>, b: Uint<B, L>, 
     }
 }
 
+/// A `Uint` of ANOTHER width produced by an operation (cross-width conversions, `widening_mul`,
+/// fixed-size byte-array constructors): only the canonical-limb invariant is judged.
+pub struct Foreign {
+    pub what: &'static str,
+    pub bits: usize,
+    pub n: Num,
+    pub canon: bool,
+}
+
+fn fo<const B2: usize, const L2: usize>(what: &'static str, u: Uint<B2, L2>) -> Foreign {
+    let (n, canon) = num::observe(&u);
+    Foreign { what, bits: B2, n, canon }
+}
+
+/// Run a piece that may panic on its own (documented panics) without losing the rest of the group.
+fn t<T>(f: impl FnOnce() -> Vec<T>) -> Vec<T> {
+    match guard(f) {
+        Guarded::Ok(v) => v,
+        _ => vec![],
+    }
+}
+
+/// Operations 99..: trait impls of the num-traits / num-integer / subtle / zeroize integrations,
+/// conversions from every primitive type, cross-width conversions, `widening_mul`, the `Bits`
+/// forwarders and the fixed-size byte-array constructors.
+#[allow(clippy::too_many_lines)]
+fn apply2<const B: usize, const L: usize>(op: u64, a: Uint<B, L>, b: Uint<B, L>, k: u64) -> (&'static str, Vec<Uint<B, L>>, Vec<Foreign>) {
+    use num_integer::Integer;
+    use num_traits as nt;
+    type U<const B: usize, const L: usize> = Uint<B, L>;
+    let sh32 = if k % 13 == 0 { u32::MAX - (k % 3) as u32 } else if k % 13 == 1 { (k >> 4) as u32 } else { (k % (2 * B as u64 + 3)) as u32 };
+    let o = |x: Option<Uint<B, L>>| x.into_iter().collect::<Vec<_>>();
+    let mut f: Vec<Foreign> = vec![];
+    let (name, v): (&'static str, Vec<Uint<B, L>>) = match op {
+        99 => ("num-traits checked / wrapping / saturating / overflowing traits", {
+            let mut v = vec![];
+            v.extend(nt::CheckedAdd::checked_add(&a, &b));
+            v.extend(nt::CheckedSub::checked_sub(&a, &b));
+            v.extend(nt::CheckedMul::checked_mul(&a, &b));
+            v.extend(t(|| o(nt::CheckedDiv::checked_div(&a, &b))));
+            v.extend(t(|| o(nt::CheckedRem::checked_rem(&a, &b))));
+            v.extend(nt::CheckedNeg::checked_neg(&a));
+            v.extend(t(|| o(nt::CheckedShl::checked_shl(&a, sh32))));
+            v.extend(t(|| o(nt::CheckedShr::checked_shr(&a, sh32))));
+            v.push(nt::WrappingAdd::wrapping_add(&a, &b));
+            v.push(nt::WrappingSub::wrapping_sub(&a, &b));
+            v.push(nt::WrappingMul::wrapping_mul(&a, &b));
+            v.push(nt::WrappingNeg::wrapping_neg(&a));
+            v.extend(t(|| vec![nt::WrappingShl::wrapping_shl(&a, sh32), nt::WrappingShr::wrapping_shr(&a, sh32)]));
+            v.push(nt::ops::overflowing::OverflowingAdd::overflowing_add(&a, &b).0);
+            v.push(nt::ops::overflowing::OverflowingSub::overflowing_sub(&a, &b).0);
+            v.push(nt::ops::overflowing::OverflowingMul::overflowing_mul(&a, &b).0);
+            v.push(nt::Saturating::saturating_add(a, b));
+            v.push(nt::Saturating::saturating_sub(a, b));
+            v.push(nt::SaturatingAdd::saturating_add(&a, &b));
+            v.push(nt::SaturatingSub::saturating_sub(&a, &b));
+            v.push(nt::SaturatingMul::saturating_mul(&a, &b));
+            v
+        }),
+        100 => ("num-traits PrimInt shifts / rotates / pow", {
+            let mut v = vec![];
+            v.extend(t(|| vec![nt::PrimInt::rotate_left(a, sh32), nt::PrimInt::rotate_right(a, sh32)]));
+            v.extend(t(|| vec![nt::PrimInt::signed_shl(a, sh32), nt::PrimInt::unsigned_shl(a, sh32)]));
+            v.extend(t(|| vec![nt::PrimInt::signed_shr(a, sh32), nt::PrimInt::unsigned_shr(a, sh32)]));
+            v.extend(t(|| vec![nt::PrimInt::reverse_bits(a)]));
+            v.extend(t(|| vec![nt::PrimInt::pow(a, (k % 7) as u32)]));
+            v.extend(t(|| vec![nt::PrimInt::from_le(a), nt::PrimInt::to_le(a)]));
+            v
+        }),
+        // not well defined unless BITS % 8 == 0 (documented); whatever comes back must be canonical
+        101 => ("num-traits swap_bytes / from_be / to_be", {
+            let mut v = vec![];
+            v.extend(t(|| vec![nt::PrimInt::swap_bytes(a)]));
+            v.extend(t(|| vec![nt::PrimInt::from_be(a)]));
+            v.extend(t(|| vec![nt::PrimInt::to_be(b)]));
+            v
+        }),
+        102 => ("num-traits FromPrimitive / NumCast / Num / Bounded / Zero / One", {
+            let wide = u128::from(k) << 64 | u128::from(!k);
+            let mut v = vec![];
+            v.extend(<U<B, L> as nt::FromPrimitive>::from_u64(k));
+            v.extend(<U<B, L> as nt::FromPrimitive>::from_i64(k as i64));
+            v.extend(<U<B, L> as nt::FromPrimitive>::from_u128(wide));
+            v.extend(<U<B, L> as nt::FromPrimitive>::from_i128(wide as i128));
+            v.extend(<U<B, L> as nt::FromPrimitive>::from_u8(k as u8));
+            v.extend(<U<B, L> as nt::FromPrimitive>::from_i16(k as i16));
+            v.extend(<U<B, L> as nt::FromPrimitive>::from_usize(k as usize));
+            v.extend(t(|| o(<U<B, L> as nt::FromPrimitive>::from_f64(k as f64 * 0.37))));
+            v.extend(t(|| o(<U<B, L> as nt::FromPrimitive>::from_f32((k >> 20) as f32))));
+            v.extend(<U<B, L> as nt::NumCast>::from(k));
+            v.extend(<U<B, L> as nt::NumCast>::from(wide));
+            v.extend(<U<B, L> as nt::NumCast>::from(k as u8));
+            v.extend(t(|| o(<U<B, L> as nt::NumCast>::from(k as f64))));
+            v.extend(t(|| o(<U<B, L> as nt::NumCast>::from(-(k as i64 >> 1)))));
+            let radix = (k % 35 + 2) as u32;
+            let text: String = a.to_base_be(u64::from(radix)).map(|d| std::char::from_digit(d as u32, radix).unwrap_or('?')).collect();
+            v.extend(t(|| <U<B, L> as nt::Num>::from_str_radix(&text, radix).ok().into_iter().collect()));
+            v.extend(t(|| <U<B, L> as nt::Num>::from_str_radix(&format!("{text}{}", k % 10), 10).ok().into_iter().collect()));
+            v.push(<U<B, L> as nt::Bounded>::min_value());
+            v.push(<U<B, L> as nt::Bounded>::max_value());
+            v.push(<U<B, L> as nt::Zero>::zero());
+            v.extend(t(|| vec![<U<B, L> as nt::One>::one()]));
+            v
+        }),
+        103 => ("num-traits FromBytes (raw bytes)", {
+            // panics when the bytes are out of range (unwrap of try_from_*_slice); never a non-canonical value
+            let mut bytes = (!a).to_be_bytes_vec();
+            if let Some(first) = bytes.first_mut() {
+                *first |= k as u8;
+            }
+            let le: Vec<u8> = bytes.iter().rev().copied().collect();
+            let mut v = vec![];
+            v.extend(t(|| vec![<U<B, L> as nt::FromBytes>::from_be_bytes(&bytes)]));
+            v.extend(t(|| vec![<U<B, L> as nt::FromBytes>::from_le_bytes(&le)]));
+            v.extend(t(|| vec![<U<B, L> as nt::FromBytes>::from_be_bytes(&nt::ToBytes::to_be_bytes(&b))]));
+            v.extend(t(|| vec![<U<B, L> as nt::FromBytes>::from_le_bytes(&nt::ToBytes::to_le_bytes(&b))]));
+            v
+        }),
+        104 => ("num-traits Inv / MulAdd / Euclid / Pow", {
+            let mut v = vec![];
+            v.extend(t(|| o(nt::Inv::inv(a))));
+            v.extend(t(|| vec![nt::MulAdd::mul_add(a, b, Uint::wrapping_from(k))]));
+            v.extend(t(|| {
+                let mut x = a;
+                nt::MulAddAssign::mul_add_assign(&mut x, b, Uint::wrapping_from(k));
+                vec![x]
+            }));
+            v.extend(t(|| vec![nt::Euclid::div_euclid(&a, &b), nt::Euclid::rem_euclid(&a, &b)]));
+            v.extend(t(|| o(nt::CheckedEuclid::checked_div_euclid(&a, &b))));
+            v.extend(t(|| o(nt::CheckedEuclid::checked_rem_euclid(&a, &b))));
+            if B <= 1024 {
+                v.extend(t(|| vec![nt::Pow::pow(a, Uint::<B, L>::wrapping_from(k % 9))]));
+            }
+            v
+        }),
+        105 => ("num-integer Integer", {
+            let mut v = vec![];
+            v.extend(t(|| vec![Integer::div_floor(&a, &b), Integer::mod_floor(&a, &b)]));
+            if B <= 1024 {
+                v.extend(t(|| vec![Integer::gcd(&a, &b)]));
+                v.extend(t(|| vec![Integer::lcm(&a, &b)]));
+                v.extend(t(|| {
+                    let e = Integer::extended_gcd(&a, &b);
+                    vec![e.gcd, e.x, e.y]
+                }));
+            }
+            v.extend(t(|| {
+                let (q, r) = Integer::div_rem(&a, &b);
+                vec![q, r]
+            }));
+            v.extend(t(|| vec![Integer::div_ceil(&a, &b)]));
+            v.extend(t(|| {
+                let (q, r) = Integer::div_mod_floor(&a, &b);
+                vec![q, r]
+            }));
+            v.extend(t(|| vec![Integer::next_multiple_of(&a, &b)]));
+            v.extend(t(|| vec![Integer::prev_multiple_of(&a, &b)]));
+            v.extend(t(|| {
+                let mut x = a;
+                Integer::inc(&mut x);
+                vec![x]
+            }));
+            v.extend(t(|| {
+                let mut x = a;
+                Integer::dec(&mut x);
+                vec![x]
+            }));
+            // at the ends of the range
+            v.extend(t(|| {
+                let mut x = Uint::<B, L>::MAX;
+                Integer::inc(&mut x);
+                vec![x]
+            }));
+            v.extend(t(|| {
+                let mut x = Uint::<B, L>::ZERO;
+                Integer::dec(&mut x);
+                vec![x]
+            }));
+            v
+        }),
+        106 => ("subtle conditional select / assign / swap / negate", {
+            use subtle::{Choice, ConditionallyNegatable, ConditionallySelectable};
+            let c = Choice::from((k & 1) as u8);
+            let mut v = vec![U::conditional_select(&a, &b, c), U::conditional_select(&a, &b, !c)];
+            let mut x = a;
+            x.conditional_assign(&b, c);
+            v.push(x);
+            let (mut y, mut z) = (a, b);
+            U::conditional_swap(&mut y, &mut z, c);
+            v.push(y);
+            v.push(z);
+            let mut n = a;
+            n.conditional_negate(c);
+            v.push(n);
+            let mut m = b;
+            m.conditional_negate(!c);
+            v.push(m);
+            v
+        }),
+        107 => ("zeroize", {
+            use zeroize::Zeroize;
+            let mut x = a;
+            x.zeroize();
+            let mut y = ruint::Bits::from(!b);
+            y.zeroize();
+            let mut z = ruint::Bits::from(b);
+            *z.as_uint_mut() = !a;
+            vec![x, y.into_inner(), z.into_inner()]
+        }),
+        108 => ("conversions from every primitive type", {
+            let mut v = vec![];
+            macro_rules! prim {
+                ($($ty:ty),*) => {$(
+                    v.extend(U::<B, L>::try_from(k as $ty).ok());
+                    v.push(U::<B, L>::wrapping_from(k as $ty));
+                    v.push(U::<B, L>::saturating_from(k as $ty));
+                    v.extend(U::<B, L>::try_from((k >> 32) as $ty).ok());
+                )*};
+            }
+            prim!(u8, u16, u32, u64, usize, u128, i8, i16, i32, i64, isize, i128);
+            v.extend(U::<B, L>::try_from(k & 1 == 1).ok());
+            v.push(U::<B, L>::wrapping_from(k & 2 == 2));
+            v.push(U::<B, L>::saturating_from(true));
+            let big = u128::from(k).wrapping_mul(0x1_0000_0001_0000_0001_0000_0001);
+            v.extend(U::<B, L>::try_from(big).ok());
+            v.push(U::<B, L>::wrapping_from(big));
+            v.push(U::<B, L>::saturating_from(big));
+            v.push(U::<B, L>::wrapping_from(big as i128));
+            v.push(U::<B, L>::saturating_from(big as i128));
+            for x in [k as f32, (k >> 40) as f32 + 0.5, f32::MAX, f32::from_bits(k as u32)] {
+                v.extend(t(|| U::<B, L>::try_from(x).ok().into_iter().collect()));
+                v.extend(t(|| vec![U::<B, L>::wrapping_from(x), U::<B, L>::saturating_from(x)]));
+            }
+            for x in [f64::from_bits(k), (k as f64) * 1e30, f64::MAX, -0.4, 0.5] {
+                v.extend(t(|| U::<B, L>::try_from(x).ok().into_iter().collect()));
+                v.extend(t(|| vec![U::<B, L>::wrapping_from(x), U::<B, L>::saturating_from(x)]));
+            }
+            v
+        }),
+        // the panicking forms (to, from, from_uint) live in operation 113: their panic message formats
+        // the rejected value, so a defect there can take the process down before anything is observed
+        109 => ("cross-width conversions (wrapping_to / saturating_to / wrapping_from / saturating_from / checked_from_uint)", {
+            macro_rules! cross {
+                ($(($bb:literal, $ll:literal)),*) => {$(
+                    f.push(fo("wrapping_to::<Uint>", a.wrapping_to::<U<$bb, $ll>>()));
+                    f.push(fo("saturating_to::<Uint>", a.saturating_to::<U<$bb, $ll>>()));
+                    f.push(fo("wrapping_from(Uint)", U::<$bb, $ll>::wrapping_from(b)));
+                    f.push(fo("saturating_from(Uint)", U::<$bb, $ll>::saturating_from(b)));
+                    #[allow(deprecated)]
+                    {
+                        f.extend(U::<$bb, $ll>::checked_from_uint(b).map(|u| fo("checked_from_uint", u)));
+                    }
+                )*};
+            }
+            cross!((0, 0), (1, 1), (7, 1), (63, 1), (64, 1), (65, 2), (100, 2), (127, 2), (129, 3), (200, 4), (255, 4), (256, 4), (300, 5));
+            // and into this width from fixed other widths
+            let s1 = U::<128, 2>::from_limbs([k, !k]);
+            let s2 = U::<70, 2>::from_limbs([!k, k & 0x3f]);
+            let s3 = U::<64, 1>::from_limbs([k]);
+            let s4 = U::<320, 5>::from_limbs([k, 0, !k, 0, k]);
+            let mut v = vec![];
+            macro_rules! into_self {
+                ($($s:expr),*) => {$(
+                    v.push($s.wrapping_to::<U<B, L>>());
+                    v.push($s.saturating_to::<U<B, L>>());
+                    v.push(U::<B, L>::wrapping_from($s));
+                    v.push(U::<B, L>::saturating_from($s));
+                    #[allow(deprecated)]
+                    {
+                        v.extend(U::<B, L>::checked_from_uint($s));
+                    }
+                )*};
+            }
+            into_self!(s1, s2, s3, s4);
+            v
+        }),
+        110 => ("widening_mul (fixed width pairs)", {
+            let x = a.as_limbs().first().copied().unwrap_or(k);
+            let y = b.as_limbs().last().copied().unwrap_or(!k);
+            let m100 = U::<100, 2>::from_limbs([x, y & 0xf_ffff_ffff]);
+            let m63 = U::<63, 1>::from_limbs([y >> 1]);
+            let m64 = U::<64, 1>::from_limbs([x ^ k]);
+            let m65 = U::<65, 2>::from_limbs([y, k & 1]);
+            let m127 = U::<127, 2>::from_limbs([k, x >> 1]);
+            let m1 = U::<1, 1>::from_limbs([k & 1]);
+            let m200 = U::<200, 4>::from_limbs([x, y, k, x & 0xff]);
+            let m56 = U::<56, 1>::from_limbs([y >> 8]);
+            f.push(fo("widening_mul 100x63", m100.widening_mul::<63, 1, 163, 3>(m63)));
+            f.push(fo("widening_mul 64x64", m64.widening_mul::<64, 1, 128, 2>(U::<64, 1>::from_limbs([y]))));
+            f.push(fo("widening_mul 65x65", m65.widening_mul::<65, 2, 130, 3>(U::<65, 2>::MAX)));
+            f.push(fo("widening_mul 127x1", m127.widening_mul::<1, 1, 128, 2>(m1)));
+            f.push(fo("widening_mul 200x56", m200.widening_mul::<56, 1, 256, 4>(m56)));
+            f.push(fo("widening_mul 63x1", m63.widening_mul::<1, 1, 64, 1>(m1)));
+            f.push(fo("widening_mul 1x1", m1.widening_mul::<1, 1, 2, 1>(U::<1, 1>::MAX)));
+            f.push(fo("widening_mul 100x100", U::<100, 2>::MAX.widening_mul::<100, 2, 200, 4>(m100)));
+            f.push(fo("widening_mul 127x65", U::<127, 2>::MAX.widening_mul::<65, 2, 192, 3>(U::<65, 2>::MAX)));
+            f.push(fo("widening_mul 0x63", U::<0, 0>::ZERO.widening_mul::<63, 1, 63, 1>(m63)));
+            vec![]
+        }),
+        111 => ("Bits forwarded constructors and shifts", {
+            use ruint::Bits;
+            let sh = if k % 13 == 0 { usize::MAX - (k % 3) as usize } else { (k % (2 * B as u64 + 3)) as usize };
+            let ba = Bits::from(a);
+            let mut v = vec![];
+            v.extend(ba.checked_shl(sh).map(Bits::into_inner));
+            v.extend(ba.checked_shr(sh).map(Bits::into_inner));
+            v.push(ba.overflowing_shl(sh).0.into_inner());
+            v.push(ba.overflowing_shr(sh).0.into_inner());
+            v.push(ba.wrapping_shl(sh).into_inner());
+            v.push(ba.wrapping_shr(sh).into_inner());
+            let mut raw = (!a).to_be_bytes_vec();
+            if let Some(first) = raw.first_mut() {
+                *first |= k as u8;
+            }
+            let le: Vec<u8> = raw.iter().rev().copied().collect();
+            v.extend(Bits::<B, L>::try_from_be_slice(&raw).map(Bits::into_inner));
+            v.extend(Bits::<B, L>::try_from_le_slice(&le).map(Bits::into_inner));
+            v.extend(Bits::<B, L>::from_str_radix(&format!("{b:x}{:x}", k % 16), 16).ok().map(Bits::into_inner));
+            let mut l = *b.as_limbs();
+            if L > 0 {
+                l[L - 1] ^= k;
+            }
+            v.extend(t(|| vec![Bits::<B, L>::from_limbs(l).into_inner()]));
+            v.push((!&ba).into_inner());
+            v.push((ba & &Bits::from(b)).into_inner());
+            v.push((ba | &Bits::from(b)).into_inner());
+            v.push((ba ^ &Bits::from(b)).into_inner());
+            v.push(<Uint<B, L> as From<Bits<B, L>>>::from(ba));
+            v.push(*ba.as_uint());
+            v
+        }),
+        113 => ("cross-width conversions, panicking forms (to / from / from_uint)", {
+            macro_rules! cross {
+                ($(($bb:literal, $ll:literal)),*) => {$(
+                    f.extend(t(|| vec![fo("to::<Uint>", a.to::<U<$bb, $ll>>())]));
+                    f.extend(t(|| vec![fo("from(Uint)", U::<$bb, $ll>::from(b))]));
+                    #[allow(deprecated)]
+                    {
+                        f.extend(t(|| vec![fo("from_uint", U::<$bb, $ll>::from_uint(a))]));
+                    }
+                )*};
+            }
+            cross!((0, 0), (1, 1), (7, 1), (63, 1), (64, 1), (65, 2), (100, 2), (127, 2), (129, 3), (200, 4), (255, 4), (256, 4), (300, 5));
+            let s1 = U::<128, 2>::from_limbs([k, !k]);
+            let s2 = U::<70, 2>::from_limbs([!k, k & 0x3f]);
+            let s3 = U::<64, 1>::from_limbs([k]);
+            let s4 = U::<320, 5>::from_limbs([k, 0, !k, 0, k]);
+            let mut v = vec![];
+            macro_rules! into_self {
+                ($($s:expr),*) => {$(
+                    v.extend(t(|| vec![$s.to::<U<B, L>>()]));
+                    v.extend(t(|| vec![U::<B, L>::from($s)]));
+                    #[allow(deprecated)]
+                    {
+                        v.extend(t(|| vec![U::<B, L>::from_uint($s)]));
+                    }
+                )*};
+            }
+            into_self!(s1, s2, s3, s4);
+            v
+        }),
+        114 => ("conversions from primitive types, panicking form (Uint::from)", {
+            let mut v = vec![];
+            macro_rules! prim {
+                ($($ty:ty),*) => {$(
+                    v.extend(t(|| vec![<U<B, L>>::from(k as $ty)]));
+                    v.extend(t(|| vec![<U<B, L>>::from((k >> 40) as $ty)]));
+                )*};
+            }
+            prim!(u8, u16, u32, u64, usize, u128, i8, i16, i32, i64, isize, i128);
+            v.extend(t(|| vec![<U<B, L>>::from(k & 1 == 1)]));
+            v.extend(t(|| vec![<U<B, L>>::from(k as f64)]));
+            v.extend(t(|| vec![<U<B, L>>::from((k >> 30) as f32)]));
+            v
+        }),
+        _ => ("fixed-size byte-array constructors", {
+            // from_be_bytes / from_le_bytes take [u8; BYTES]: BYTES cannot be named generically, so
+            // fixed widths; they panic on out-of-range bytes, never return a non-canonical value
+            let kb = k.to_le_bytes();
+            let x = a.as_limbs().first().copied().unwrap_or(!k).to_le_bytes();
+            let mut b32 = [0u8; 32];
+            for (i, by) in b32.iter_mut().enumerate() {
+                *by = kb[i % 8] ^ x[(i / 8) % 8];
+            }
+            f.extend(t(|| vec![fo("from_be_bytes<2> U12", U::<12, 1>::from_be_bytes::<2>([kb[0], kb[1]]))]));
+            f.extend(t(|| vec![fo("from_le_bytes<2> U12", U::<12, 1>::from_le_bytes::<2>([kb[0], kb[1] & 0x1f]))]));
+            f.extend(t(|| vec![fo("from_be_bytes<8> U63", U::<63, 1>::from_be_bytes::<8>(kb))]));
+            f.extend(t(|| vec![fo("from_le_bytes<8> U63", U::<63, 1>::from_le_bytes::<8>(kb))]));
+            f.extend(t(|| vec![fo("from_be_bytes<8> U57", U::<57, 1>::from_be_bytes::<8>(x))]));
+            f.extend(t(|| vec![fo("from_be_bytes<32> U255", U::<255, 4>::from_be_bytes::<32>(b32))]));
+            f.extend(t(|| vec![fo("from_le_bytes<32> U250", U::<250, 4>::from_le_bytes::<32>(b32))]));
+            f.extend(t(|| vec![fo("from_be_bytes<32> U256", U::<256, 4>::from_be_bytes::<32>(b32))]));
+            let mut b13 = [0u8; 13];
+            b13.copy_from_slice(&b32[..13]);
+            f.extend(t(|| vec![fo("from_be_bytes<13> U100", U::<100, 2>::from_be_bytes::<13>(b13))]));
+            f.extend(t(|| vec![fo("from_le_bytes<13> U100", U::<100, 2>::from_le_bytes::<13>(b13))]));
+            f.extend(t(|| vec![fo("from_le_bytes<1> U1", U::<1, 1>::from_le_bytes::<1>([kb[2] & 3]))]));
+            f.extend(t(|| vec![fo("Bits::from_be_bytes<8> U63", ruint::Bits::<63, 1>::from_be_bytes::<8>(kb).into_inner())]));
+            f.extend(t(|| vec![fo("Bits::from_le_bytes<32> U255", ruint::Bits::<255, 4>::from_le_bytes::<32>(b32).into_inner())]));
+            vec![]
+        }),
+    };
+    (name, v, f)
+}
+
+fn apply_all<const B: usize, const L: usize>(op: u64, a: Uint<B, L>, b: Uint<B, L>, k: u64) -> (&'static str, Vec<Uint<B, L>>, Vec<Foreign>) {
+    if op >= 99 {
+        apply2::<B, L>(op, a, b, k)
+    } else {
+        let (name, v) = apply::<B, L>(op, a, b, k);
+        (name, v, vec![])
+    }
+}
+
 pub fn run<const B: usize, const L: usize>(ctx: &mut Ctx, plan: &Plan) {
     // values enter through the byte-slice decoder
     let mut values: Vec<Uint<B, L>> = vec![];
@@ -355,8 +813,17 @@ pub fn run<const B: usize, const L: usize>(ctx: &mut Ctx, plan: &Plan) {
         let a = values[sa % values.len()];
         let b = values[sb % values.len()];
         ctx.event("H-OP", op, k);
-        match guard(|| apply::<B, L>(op, a, b, k)) {
-            Guarded::Ok((name, outs)) => {
+        match guard(|| apply_all::<B, L>(op, a, b, k)) {
+            Guarded::Ok((name, outs, foreign)) => {
+                for fv in foreign {
+                    produced += 1;
+                    if !fv.canon {
+                        ctx.violate(
+                            "NONCANON",
+                            format!("{}: Uint<{}> with bits set at positions >= BITS (limbs denote 0x{})", fv.what, fv.bits, num::hex(&fv.n)),
+                        );
+                    }
+                }
                 for u in outs {
                     ctx.observe(name, &u);
                     produced += 1;
